@@ -290,5 +290,5 @@ def rule_path_lengths(chk, prog):
 
 def run(chk):
     prog = chk.load()
-    rule_all_pairs(chk, prog)
-    rule_path_lengths(chk, prog)
+    chk.guard(rule_all_pairs, chk, prog)
+    chk.guard(rule_path_lengths, chk, prog)
